@@ -43,8 +43,25 @@ class Hang(BaseException):
     pass
 
 
+_armed = [False]
+
+
 def _alarm(signum, frame):
-    raise Hang()
+    if _armed[0]:
+        raise Hang()
+
+
+def _arm(cpu_seconds):
+    """CPU-time watchdog.  It repeats every second until disarmed: an exception raised by a signal
+    handler inside a __del__ (simpleeval.SimpleEval has one) is swallowed by the interpreter."""
+    signal.signal(signal.SIGVTALRM, _alarm)
+    _armed[0] = True
+    signal.setitimer(signal.ITIMER_VIRTUAL, cpu_seconds, 1.0)
+
+
+def _disarm():
+    _armed[0] = False
+    signal.setitimer(signal.ITIMER_VIRTUAL, 0)
 
 
 # ---------------------------------------------------------------- TLC: histories + expectations
@@ -205,38 +222,39 @@ def _worker_A(job):
     except Exception as ex:
         out["err"] = "%s: %s" % (type(ex).__name__, ex)
         return out
-    signal.signal(signal.SIGVTALRM, _alarm)
     first = {}
     try:
-        signal.setitimer(signal.ITIMER_VIRTUAL, 10 + 0.02 * len(hists))
+        _arm(10 + 0.02 * len(hists))
         res = play_A_trie(flow_configs, cfg, hists)
-        signal.setitimer(signal.ITIMER_VIRTUAL, 0)
+        _disarm()
         out["calls"] += len(res)
         for k, h in enumerate(hists):
             keys = [tuple(tuple(e) for e in h[:n + 1]) for n in range(len(h))]
             out["obs"][k] = [res[key][0] for key in keys]
             first[k] = [res[key][1] for key in keys]
     except Hang:
+        _disarm()
         out["hang"] = "first pass did not finish within %ds of CPU time" % int(10 + 0.02 * len(hists))
         return out
     finally:
-        signal.setitimer(signal.ITIMER_VIRTUAL, 0)
+        _disarm()
     # second pass: same flow_configs, every history again from scratch, seeded permutation
     order = list(range(len(hists)))
     random.Random(seed * 7919 + prog["id"]).shuffle(order)
     try:
         for k in order[:limit]:
-            signal.setitimer(signal.ITIMER_VIRTUAL, 5)
+            _arm(5)
             obs2, full2 = play_A(flow_configs, cfg, hists[k])
-            signal.setitimer(signal.ITIMER_VIRTUAL, 0)
+            _disarm()
             out["calls"] += len(obs2)
             if full2 != first[k]:
                 n = next(i for i in range(len(full2)) if full2[i] != first[k][i])
                 out["dep"].append({"hist": hists[k], "at": n + 1, "first": first[k][n], "second": full2[n]})
     except Hang:
+        _disarm()
         out["hang"] = "second pass: a history did not finish within 5s of CPU time"
     finally:
-        signal.setitimer(signal.ITIMER_VIRTUAL, 0)
+        _disarm()
     return out
 
 
@@ -337,30 +355,30 @@ def _worker_B(job):
     except Exception as ex:
         out["err"] = "%s: %s" % (type(ex).__name__, ex)
         return out
-    signal.signal(signal.SIGVTALRM, _alarm)
     first = []
     try:
         for (u, v) in scripts:
-            signal.setitimer(signal.ITIMER_VIRTUAL, 12)
+            _arm(12)
             hist, obs, stream, fail = play_B(app, script, prog, u, v)
-            signal.setitimer(signal.ITIMER_VIRTUAL, 0)
+            _disarm()
             first.append(stream)
             out["cases"].append({"u": u, "v": v, "h": hist, "o": obs, "fail": fail})
         order = list(range(len(scripts)))
         random.Random(seed * 104729 + prog["id"]).shuffle(order)
         for k in order:
-            signal.setitimer(signal.ITIMER_VIRTUAL, 12)
+            _arm(12)
             hist, obs, stream, fail = play_B(app, script, prog, scripts[k][0], scripts[k][1])
-            signal.setitimer(signal.ITIMER_VIRTUAL, 0)
+            _disarm()
             if stream != first[k]:
                 n = next((i for i in range(min(len(stream), len(first[k]))) if stream[i] != first[k][i]),
                          min(len(stream), len(first[k])))
                 out["dep"].append({"u": scripts[k][0], "v": scripts[k][1], "at": n + 1,
                                    "first": first[k][n:n + 3], "second": stream[n:n + 3]})
     except Hang:
+        _disarm()
         out["hang"] = "generate_events did not return within 12s of CPU time"
     finally:
-        signal.setitimer(signal.ITIMER_VIRTUAL, 0)
+        _disarm()
     return out
 
 
